@@ -72,6 +72,7 @@ type Net struct {
 	connSeq       int
 	KeepTrace     bool
 	DefaultDelay  time.Duration
+	StreamWindow  int64         // if > 0: a stream write blocks while this many bytes are unread by the peer (bounded socket buffers)
 	DialFailDelay time.Duration // how long a dial to an unreachable address takes (0 = caller's timeout)
 }
 
@@ -501,7 +502,9 @@ type pipeHalf struct {
 	rclosed   bool // reader closed: writes fail
 	reset     bool
 	notify    chan struct{}
-	cutAfter  int64 // -1 none; bytes beyond are dropped
+	wnotify   chan struct{} // room in the window / reader gone
+	window    int64         // 0 = unbounded; otherwise a write blocks while this many bytes are unread (a full receive + send buffer)
+	cutAfter  int64         // -1 none; bytes beyond are dropped
 	cutHard   bool  // on reaching the cut: reset the connection instead of black-holing
 	written   int64 // bytes accepted from the writer
 	delivered int64 // bytes made readable
@@ -511,7 +514,14 @@ type pipeHalf struct {
 }
 
 func newHalf() *pipeHalf {
-	return &pipeHalf{notify: make(chan struct{}, 1), cutAfter: -1}
+	return &pipeHalf{notify: make(chan struct{}, 1), wnotify: make(chan struct{}, 1), cutAfter: -1}
+}
+
+func (h *pipeHalf) wwake() {
+	select {
+	case h.wnotify <- struct{}{}:
+	default:
+	}
 }
 
 func (h *pipeHalf) wake() {
@@ -544,13 +554,17 @@ type ConnEnd struct {
 	rDeadline time.Time
 	wDeadline time.Time
 	dlChange  chan struct{}
+	wdlChange chan struct{}
 	ClosedAt  time.Time
 }
 
 func newConnPair(n *Net, id int, dialAddr, accAddr string) *Conn {
 	c := &Conn{ID: id, net: n, DialAddr: dialAddr, AccAddr: accAddr, d2a: newHalf(), a2d: newHalf(), OpenedAt: time.Now()}
-	c.Dialer = &ConnEnd{c: c, dialer: true, rd: c.a2d, wr: c.d2a, dlChange: make(chan struct{}, 1)}
-	c.Acceptor = &ConnEnd{c: c, dialer: false, rd: c.d2a, wr: c.a2d, dlChange: make(chan struct{}, 1)}
+	c.Dialer = &ConnEnd{c: c, dialer: true, rd: c.a2d, wr: c.d2a, dlChange: make(chan struct{}, 1), wdlChange: make(chan struct{}, 1)}
+	c.Acceptor = &ConnEnd{c: c, dialer: false, rd: c.d2a, wr: c.a2d, dlChange: make(chan struct{}, 1), wdlChange: make(chan struct{}, 1)}
+	if n.StreamWindow > 0 {
+		c.d2a.window, c.a2d.window = n.StreamWindow, n.StreamWindow
+	}
 	return c
 }
 
@@ -635,6 +649,7 @@ func (e *ConnEnd) Read(p []byte) (int, error) {
 			if more {
 				h.wake()
 			}
+			h.wwake()
 			return n, nil
 		}
 		if h.wclosed && h.inflight == 0 {
@@ -670,6 +685,23 @@ func (e *ConnEnd) Read(p []byte) (int, error) {
 }
 
 func (e *ConnEnd) Write(p []byte) (int, error) {
+	if w := e.wr.window; w > 0 && int64(len(p)) > w/4 {
+		// bounded buffers take a large write piece by piece
+		total := 0
+		for len(p) > 0 {
+			k := int(w / 4)
+			if k > len(p) {
+				k = len(p)
+			}
+			n, err := e.Write(p[:k])
+			total += n
+			if err != nil {
+				return total, err
+			}
+			p = p[k:]
+		}
+		return total, nil
+	}
 	if e.closed.Load() {
 		return 0, &net.OpError{Op: "write", Net: "tcp", Err: net.ErrClosed}
 	}
@@ -681,7 +713,38 @@ func (e *ConnEnd) Write(p []byte) (int, error) {
 	}
 	h := e.wr
 	n := e.c.net
-	h.mu.Lock()
+	for {
+		h.mu.Lock()
+		if h.window <= 0 || h.written-h.consumed < h.window || h.rclosed || h.reset {
+			break // (lock kept)
+		}
+		h.mu.Unlock()
+		// the peer does not read and the buffers are full: wait for room, the write deadline or the end of the connection
+		if e.closed.Load() {
+			return 0, &net.OpError{Op: "write", Net: "tcp", Err: net.ErrClosed}
+		}
+		e.dlMu.Lock()
+		dl := e.wDeadline
+		e.dlMu.Unlock()
+		var tc <-chan time.Time
+		var tm *time.Timer
+		if !dl.IsZero() {
+			d := time.Until(dl)
+			if d <= 0 {
+				return 0, &net.OpError{Op: "write", Net: "tcp", Err: timeoutErr{"write"}}
+			}
+			tm = time.NewTimer(d)
+			tc = tm.C
+		}
+		select {
+		case <-h.wnotify:
+		case <-e.wdlChange:
+		case <-tc:
+		}
+		if tm != nil {
+			tm.Stop()
+		}
+	}
 	if h.rclosed || h.reset {
 		h.mu.Unlock()
 		return 0, &net.OpError{Op: "write", Net: "tcp", Err: os.NewSyscallError("write", syscall.EPIPE)}
@@ -762,12 +825,17 @@ func (c *Conn) Reset() {
 		h.reset = true
 		h.mu.Unlock()
 		h.wake()
+		h.wwake()
 	}
 	c.Dialer.kick()
 	c.Acceptor.kick()
 }
 
 func (e *ConnEnd) kick() {
+	select {
+	case e.wdlChange <- struct{}{}:
+	default:
+	}
 	select {
 	case e.dlChange <- struct{}{}:
 	default:
@@ -787,6 +855,7 @@ func (e *ConnEnd) Close() error {
 	e.rd.rclosed = true
 	e.rd.mu.Unlock()
 	e.rd.wake()
+	e.rd.wwake()
 	e.kick()
 	return nil
 }
